@@ -71,7 +71,16 @@ int Var::div(Var &var_d, Var &var_s)
 {
   if (var_d.type == VAR_INT && var_s.type == VAR_INT)
   {
-    value_int = var_d.value_int / var_s.value_int;
+    if (var_s.value_int == 0) { return -1; }
+
+    if (var_s.value_int == -1)
+    {
+      value_int = (int64_t)(0 - (uint64_t)var_d.value_int);
+    }
+      else
+    {
+      value_int = var_d.value_int / var_s.value_int;
+    }
   }
     else
   {
@@ -87,7 +96,16 @@ int Var::mod(Var &var_d, Var &var_s)
   var_d.to_int();
   var_s.to_int();
 
-  value_int = var_d.value_int % var_s.value_int;
+  if (var_s.value_int == 0) { return -1; }
+
+  if (var_s.value_int == -1)
+  {
+    value_int = 0;
+  }
+    else
+  {
+    value_int = var_d.value_int % var_s.value_int;
+  }
 
   return 0;
 }
